@@ -122,6 +122,15 @@ def run(tier, seed, out):
     kit.log(f"C11: TLC generated {len(cases)} trees ({gen.wall:.1f}s)")
     recs = kit.drive("harness.c11", "drive_case", cases, None, chunk=200)
     out.evaluations += len(NAMES) * len(recs)
+
+    def corrupt(r):      # what flatten returned replaced by "result + 1"
+        if r["out"][0].get("r") == "ok" and r["e"]["t"] == "Sum" and all(c["t"] == "Var" for c in r["e"]["c"]):
+            r["out"][0]["e"] = {"t": "Sum", "c": [r["out"][0]["e"], {"t": "Const", "v": {"k": "int", "n": 1, "d": 1}}]}
+            return r
+        return None
+    out.extra["corrupted_records_rejected"] = kit.corruption_control(
+        "C11_Judge", "C11_Judge", recs, corrupt, wd,
+        flagged=lambda v: any(list(b["cl"]) != ["SKIP"] for b in v.get("bad", [])))
     judge(out, recs, wd)
     for r in recs:
         out.note_case(r["e"], nontrivial=r["e"]["t"] not in ("Var", "Const"))
